@@ -117,6 +117,10 @@ func validBody(t *rapid.T, msgID uint16, id identity, label string) ([]byte, str
 		b = append(b, bcdTime...)
 		return append(b, rb(rapid.IntRange(0, 40).Draw(t, label+"_pkg"))...), ""
 	case 0x1003:
+		if rapid.IntRange(0, 3).Draw(t, label+"_odd1003") == 0 {
+			// the acknowledgement of 0x1003 does not depend on its body: any length must still be answered
+			return rb(rapid.IntRange(0, 20).Draw(t, label+"_len1003")), ""
+		}
 		return rb(10), ""
 	case 0x1005:
 		b := append(append([]byte{}, bcdTime...), bcdTime...)
